@@ -84,6 +84,20 @@ def f10(r):
 def f11(r):
     patch(r, 'forsys/skeleton.py', "            its_edges = self.vertices[vertex_id_to_delete].ownEdges\n",
           "            its_edges = self.vertices[vertex_id_to_delete].ownEdges.copy()\n")
+@fix("F14")  # C02: junction kept by counting non-zero float components instead of interfaces
+def f14(r):
+    patch(r, 'forsys/fmatrix.py', """            non_zero_x = np.count_nonzero(row_x)
+            non_zero_y = np.count_nonzero(row_y)
+            at_least_three = non_zero_x >= 3 or non_zero_y >= 3
+            less_than_four = non_zero_x < 4 and non_zero_y < 4
+""", """            # an interface contributes a unit vector: count the columns, not the components
+            non_zero = np.count_nonzero((row_x != 0) | (row_y != 0))
+            at_least_three = non_zero >= 3
+            less_than_four = non_zero < 4
+""")
+@fix("F13")  # C16: default limit pi is attained by exactly antiparallel tangents (after F7: every straight-through junction)
+def f13(r):
+    patch(r, 'forsys/forsys.py', 'angle_limit=kwargs.get("angle_limit", np.pi),', 'angle_limit=kwargs.get("angle_limit", np.inf),')
 if __name__ == "__main__":
     root = sys.argv[1]
     for name in (sys.argv[2:] or list(FIXES)):
